@@ -573,6 +573,7 @@ class ManagerModel:
         settle(c, "probe_leader_lost_not_standalone", others_speaking=True, silent_ticks=silent + need)
         # P2: break-up announcement by the leader, every reason, both forms
         for reason in ALL_BREAKUP_REASONS:
+            failed_dict = False
             for form in ("dict", "wire"):
                 c = V.snapshot(w)
                 cid = joined if isinstance(joined, int) else ADV
@@ -582,7 +583,13 @@ class ManagerModel:
                     vam = V.through_coder(V.full_vam(w.leader, info=V.cluster_info(cid, shape="tuple"), op=V.op_breakup(reason)))
                 with c:
                     c.mgr.on_received_vam(vam)
+                n0 = len(out)
                 settle(c, "probe_breakup_not_standalone", reason=reason, form=form)
+                if len(out) > n0:
+                    if form == "dict":
+                        failed_dict = True
+                    elif failed_dict:
+                        out.pop()       # not specific to the real-coder form: already reported for the dict form
         return out
 
 
